@@ -60,8 +60,15 @@ def build(*cmds):
 
 
 # ------------------------------------------------------------------ TLC ----
+_scratch_n = [0]
+_scratch_lock = __import__("threading").Lock()
+
+
 def _scratch(name):
-    d = os.path.join(BUILD, "tlc", "%s-%d-%d" % (name, os.getpid(), int(time.time() * 1000) % 10 ** 9))
+    with _scratch_lock:
+        _scratch_n[0] += 1
+        n = _scratch_n[0]
+    d = os.path.join(BUILD, "tlc", "%s-%d-%d-%d" % (name, os.getpid(), n, int(time.time() * 1000) % 10 ** 9))
     os.makedirs(d, exist_ok=True)
     return d
 
@@ -180,8 +187,8 @@ def run_tlc(module, cfg_path=None, cfg=None, workers=None, simulate=None, depth=
             if m:
                 try:
                     r.behaviours.append(json.loads(_unescape(m.group(1))))
-                except Exception as ex:  # pragma: no cover
-                    raise MachineryError("cannot parse behaviour: %s: %s" % (ex, line[:300]))
+                except Exception:  # interleaved output of several workers: skip the line
+                    r.prints.append(line[:200])
                 continue
             m = re.match(r"^(\d+) states generated, (\d+) distinct states found", line)
             if m:
@@ -412,3 +419,24 @@ def split_runs(events, sep_key="op", sep_val="Reset"):
             cur.append(e)
     runs.append((start, cur))
     return [r for r in runs if r[1]]
+
+
+def gen_counterexamples(module, constants, limit=12, num=3000, depth=60, seed=1, timeout=120, invariant="CexDump", spec="Spec"):
+    """Random simulation whose only 'invariant' prints the history of every bad state it meets (the spec's
+    CexDump); returns up to `limit` distinct counterexample behaviours, shortest first. Used with a Dev_*
+    constant switched on: the behaviours are then replayed on the real code, which must NOT reproduce them."""
+    r = run_tlc(module, cfg=dict(spec=spec, constants=constants, invariants=[invariant]), simulate=num, depth=depth, seed=seed,
+                timeout=timeout, name=module + "-cex")
+    if r.error and "timeout" not in r.error:
+        raise MachineryError("counterexample generation failed for %s: %s\n%s" % (module, r.error, r.out[-3000:]))
+    seen, out = set(), []
+    for b in sorted(r.behaviours, key=len):
+        k = json.dumps(b, sort_keys=True)
+        # a longer behaviour that extends an already kept one adds nothing
+        if k in seen or any(b[:len(o)] == o for o in out):
+            continue
+        seen.add(k)
+        out.append(b)
+        if len(out) >= limit:
+            break
+    return out, r
